@@ -440,8 +440,13 @@ PROPS["C09"]["assumptions"] = ["children are mock runnables honouring the Runnab
                                "composite leg's trace oracle; its atomic steps are the critical sections of runner.go/reload.go"]
 PROPS["C11"]["lean_modules"].append("GoSup.Props.C09L")
 PROPS["C11"]["theorems"] += ["GoSup.Props.C09L.c11_restart_stops_first", "GoSup.Props.C09L.c09_one_live_generation"]
+PROPS["C11"]["level_text"] += (" Concurrent model CompLts: in every interleaving a restart reload boots the new children only after "
+                               "the previous generation has been stopped and its context cancelled (c11_restart_stops_first, "
+                               "c09_one_live_generation).")
 PROPS["C18"]["lean_modules"].append("GoSup.Props.C09L")
 PROPS["C18"]["theorems"] += ["GoSup.Props.C09L.c09_none_survive"]
+PROPS["C18"]["level_text"] += (" Composite: in every interleaving of the concurrent model CompLts, once Run() has returned the context of "
+                               "every generation of child goroutines ever started is done (c09_none_survive).")
 
 HTTP_RULE = ("histories on the real httpserver.Runner over loopback TCP (ephemeral ports): an initial configuration (1-3 routes whose "
              "handlers answer with their own name) and 1-4 operations - Reload with an unchanged / permuted / changed configuration "
